@@ -958,4 +958,16 @@ theorem sumDirs_perm (k : Kind) (σ τ : Dir → Dir) (hτσ : ∀ d, τ (σ d) 
     | (by_cases h1 : k.active .y = true <;> by_cases h2 : k.active .z = true <;>
         simp_all <;> ring1)
 
+/-- the exchange `x ↔ y` -/
+def swapXY : Dir → Dir
+  | .x => .y
+  | .y => .x
+  | .z => .z
+
+theorem swapXY_invol (d : Dir) : swapXY (swapXY d) = d := by cases d <;> rfl
+
+/-- `x ↔ y` keeps the active directions of every grid class with at least two dimensions -/
+theorem swapXY_active (k : Kind) (h2 : 2 ≤ k.dim) (d : Dir) : k.active (swapXY d) = k.active d := by
+  cases d <;> simp [swapXY, Kind.active, h2]
+
 end PyFV
